@@ -5,7 +5,7 @@ fn main() {
     let src_path = "/repo/src/errorcodes.rs";
     println!("cargo:rerun-if-changed={}", src_path);
     let src = std::fs::read_to_string(src_path).expect("read errorcodes.rs");
-    let start = src.find("pub enum ErrorKind {").expect("enum ErrorKind");
+    let start = src.find("\npub enum ErrorKind {").expect("enum ErrorKind");
     let body = &src[start..];
     let end = body.find("\n}").expect("end of enum");
     let body = &body[..end];
@@ -25,6 +25,7 @@ fn main() {
             }
         }
     }
+    assert!(out.lines().count() > 100, "could not extract ErrorKind variants");
     out.push_str("]\n");
     let dir = std::env::var("OUT_DIR").unwrap();
     let mut f = std::fs::File::create(format!("{}/error_kinds.rs", dir)).unwrap();
